@@ -2711,12 +2711,19 @@ fn main() {
             let mut first: Vec<(String, String)> = vec![];
             let mut all: Vec<(String, Vec<String>)> = vec![];   // per violated label: every scenario that violates it (capped), so that a finding pinned to some scenarios does not hide the others
             let mut per_family: Vec<(String, usize)> = vec![];
+            let started = std::time::Instant::now();
+            let budget: u64 = std::env::var("VERIF_SWEEP_BUDGET_S").ok().and_then(|x| x.parse().ok()).unwrap_or(300);
+            let mut truncated = false;
             for (fam, gen, run) in families() {
+                if truncated { break; }
                 // only the families that can report a clause of this property are run (C10: all of them - any call may panic)
                 if label != "C10" && !family_props(fam).contains(&label) { continue; }
                 let scs = gen();
                 per_family.push((fam.to_string(), scs.len()));
                 for sc in scs {
+                    // a broken tree can make every scenario slow (a loader that reads lengths from the wrong offsets allocates and scans megabytes per restart): once violations
+                    // have been found and the budget is spent the sweep reports what it has instead of running into the driver's timeout (the stand-in is bounded anyway)
+                    if !first.is_empty() && started.elapsed().as_secs() >= budget { truncated = true; break; }
                     n += 1;
                     { let mut g = current.lock().unwrap(); *g = (format!("{}:{}", fam, sc), std::time::Instant::now(), n); }
                     if let Ok(v) = run(&sc) {
@@ -2736,7 +2743,7 @@ fn main() {
                 let scs: Vec<String> = all.iter().find(|(x, _)| x == l).map(|(_, v)| v.iter().map(|x| format!("\"{}\"", esc(x))).collect()).unwrap_or_default();
                 format!("{{\"label\":\"{}\",\"scenario\":\"{}\",\"all\":[{}]}}", l, esc(s), scs.join(","))
             }).collect();
-            println!("{{\"scenarios\":{},\"executed\":{},\"families\":{{{}}},\"violations\":[{}]}}", n, nontrivial, fams.join(","), viol.join(","));
+            println!("{{\"scenarios\":{},\"executed\":{},\"families\":{{{}}},\"truncated\":{},\"violations\":[{}]}}", n, nontrivial, fams.join(","), truncated, viol.join(","));
         }
         "line-child" => {
             // one command line of an ADMINISTRATOR that has selected database d, in a process of its own (an allocation failure or a stack overflow aborts the process and cannot be
